@@ -178,7 +178,7 @@ class KickMapApply(Contract):
     name = 'vfps::KickMap::apply'
     tu = 'src/SM/KickMap.cpp'
     params = []
-    tags = {'C01', 'C02', 'C08', 'C12'}
+    tags = {'C01', 'C02', 'C03', 'C05', 'C08', 'C12'}
     ghosts = {'n': 'int', 'x': 'int', 'y': 'int'}
     uf_mul = True      # posts are structural: data*weight only needs congruence
 
@@ -212,8 +212,8 @@ class KickMapApply(Contract):
         # y kick: table row of bunch min(n,_lastbunch), coordinate x; source (x, y+s)
         row = If(cx.f('this._lastbunch') < n, cx.f('this._lastbunch'), n) * pd + x
         sy = stencil_sum(cx, din, lambda s: n * nx * ny + x * ny + (y + s), lambda s: And(y + s >= 0, y + s < ny), row, ip)
-        return [('x.form', {'C01', 'C02', 'C08'}, Implies(And(rng, isx), z3.Select(dout, cell) == sx)),
-                ('y.form', {'C01', 'C02', 'C08'}, Implies(And(rng, Not(isx)), z3.Select(dout, cell) == sy)),
+        return [('x.form', {'C01', 'C02', 'C03', 'C05', 'C08'}, Implies(And(rng, isx), z3.Select(dout, cell) == sx)),      # C03/C05: every bunch is displaced by ITS row of the RF / drift / wake table
+                ('y.form', {'C01', 'C02', 'C03', 'C05', 'C08'}, Implies(And(rng, Not(isx)), z3.Select(dout, cell) == sy)),
                 ('in_unchanged', {'C08', 'C12'}, din == cx.arr('this._in._data')),
                 ('table_unchanged', {'C08', 'C12'}, And(cx.arr('this._hinfo', 'index', 'int') == cx.old.arr('this._hinfo', 'index', 'int'),
                                                         cx.arr('this._hinfo', 'weight') == cx.old.arr('this._hinfo', 'weight')))]
